@@ -8,18 +8,19 @@ ID = "C07"
 LEVEL = "exploration"
 BUILDS = ["rel"]
 BUDGET_S = {"quick": 150, "thorough": 3000}
-MAXLEN = {"quick": 5, "thorough": 6}
-EXHAUSTIVE = {"quick": "all line sequences of length <=5 over the per-mode alphabets x {no regex, group regex, plain regex} x {bare, empty}",
-              "thorough": "all line sequences of length <=6 over the per-mode alphabets x {no regex, group regex, plain regex} x {bare, empty}"}
+MAXLEN = {"quick": 4, "thorough": 5}
+EXHAUSTIVE = {"quick": "all line sequences of length <=4 over the per-mode alphabets x {no regex, group regex, plain regex} x {bare, empty}",
+              "thorough": "all line sequences of length <=5 over the per-mode alphabets x {no regex, group regex, plain regex} x {bare, empty}"}
 ALPHA = {
-    "none": ["a", "b", "a ", "  a", "\ta\t", "", "   ", "A", "ab", "a b", "a  b", "b"],
+    "none": ["a", "b", "a ", "  a", "\ta\t", "", "   ", "A", "ab", "a b", "a  b", "b", "a\u3000", "\u3000"],
     "group": ["id: a x", "id: a y", "id: b x", "  id: a", "ID: a", "", "   ", "other a", "id: ab", "id:  a", "k id: b", "id: a"],
     "plain": ["a1 x", "a1 y", "b2 x", "  a1", "zz a1", "", "   ", "other", "a12", "A1", "a1", "b2"],
 }
-PATTERN = {"none": None, "group": r"id: (?P<value>\w+)", "plain": r"[a-z]\d+"}
+ALPHA["group2"] = ALPHA["group"]     # same lines, regex with unnamed capturing groups before and after `value`
+PATTERN = {"none": None, "group": r"id: (?P<value>\w+)", "plain": r"[a-z]\d+", "group2": r"(id|ID): (?P<value>\w+)( x| y)?"}
 RULE = ("Bounded-exhaustive: every sequence of up to MAXLEN lines over a 12-symbol alphabet (repeated keys, keys differing "
         "only in indentation or trailing blanks, keys differing only outside the regex group, case variants, blank and "
-        "non-matching lines) x {no regex, `value` group regex, plain regex}; plus random long blocks with Unicode keys "
+        "non-matching lines) x {no regex, `value` group regex, plain regex, `value` group between unnamed groups}; plus random long blocks with Unicode keys "
         "and CRLF. Judged by a reference model on presence, count (<=1) and the designated line/columns. A case is one "
         "block; non-trivial = >=2 keys; distinct = hash of (attributes, lines).")
 ASSUMPTIONS = ["simple layout only (tags in their own line comments)",
@@ -35,7 +36,7 @@ def _attrs(mode, bare):
 def plan(tier, seed):
     jobs = []
     maxlen = MAXLEN[tier]
-    for mode in ("none", "group", "plain"):
+    for mode in ("none", "group", "plain", "group2"):
         for bare in ((True, False) if mode == "none" else (False,)):
             jobs.append({"k": "enum", "mode": mode, "bare": bare, "len": (0, min(3, maxlen)), "first": None})
             for L in range(4, maxlen + 1):
